@@ -1034,6 +1034,16 @@ func (e *Env) call(ex *ast.CallExpr) (SymVal, error) {
 			return SymVal{}, err
 		}
 		return SymVal{K: KFloat, S: app("fp.abs", x.S)}, nil
+	case "isNone":
+		a, err := arg(0)
+		if err != nil {
+			return SymVal{}, err
+		}
+		t := c.lookupTypeNameIn("go.starlark.net/starlark", "NoneType")
+		if t == nil {
+			return SymVal{}, fmt.Errorf("NoneType not found")
+		}
+		return mkBool(app("=", a.S, app("mkI", fmt.Sprint(c.g.tagOf(t)), "0", "nil"))), nil
 	case "sametag":
 		a, err := arg(0)
 		if err != nil {
